@@ -55,15 +55,93 @@ def _cycle_walks(g):
     return out + ["z"]
 
 
-def _cases_for(g, rnd, maxlen, nrand, extra=()):
+CHECK_MAXLEN = 2      # `check*` entries: every input up to this length, and every third longer one
+FORM_MAXLEN = 2       # Position / Span input forms: every boundary / sub-range of the inputs up to this length
+
+
+def _cases_for(g, rnd, maxlen, nrand, extra=(), form_maxlen=FORM_MAXLEN):
+    """Entries `parse_partial`, `parse` on every input; `check_partial`, `check` on the short ones and the extras; the
+    `Position` and `Span` forms (every boundary, every proper sub-range) of the shortest ones."""
     cases = []
     ins = corpus.inputs_for(g, rnd, maxlen, nrand)
     ins += [x for x in extra if x not in ins]
+    extra = set(extra)
     for (rule, kind) in g["rules"]:
-        for s in ins:
+        for k, s in enumerate(ins):
             for entry in ("parse_partial", "parse"):
                 cases.append((g["gid"], rule, entry, "str", 0, 0, s))
+            if len(s) <= CHECK_MAXLEN or (k % 3 == 0 and (len(s) <= CHECK_MAXLEN + 1 or s in extra)):
+                for entry in ("check_partial", "check"):
+                    cases.append((g["gid"], rule, entry, "str", 0, 0, s))
+            if 0 < len(s) <= form_maxlen and (len(s) == 1 or k % 2 == 0):
+                bs = corpus.boundaries(s)
+                for a in bs:
+                    if a > 0:
+                        cases.append((g["gid"], rule, "parse_partial", "pos", a, 0, s))
+                        cases.append((g["gid"], rule, "check", "pos", a, 0, s))
+                    for b in bs:
+                        if b >= a and not (a == 0 and b == bs[-1]):
+                            cases.append((g["gid"], rule, "parse_partial", "span", a, b, s))
+                            cases.append((g["gid"], rule, "check_partial", "span", a, b, s))
     return cases
+
+
+def _ast_refs(sx, which):
+    """{rule: sorted names of the defined rules its AST mentions}; which = 3 (optimized) or 4 (raw)."""
+    names = {r[1] for r in sx[2:]}
+    out = {}
+
+    def walk(e, acc):
+        if isinstance(e, list):
+            if e[0] == "ident" and e[1] in names:
+                acc.add(e[1])
+            for c in e[1:]:
+                walk(c, acc)
+    for r in sx[2:]:
+        acc = set()
+        walk(r[which], acc)
+        out[r[1]] = sorted(acc)
+    return out
+
+
+def _syn_facts(ok, dsets, tool=None):
+    """The emitted modules parsed with `syn` (harness/tgen_tool): per option set and grammar, the `$boxed` argument of every
+    rule and the rules every rule's type expression refers to (`(ref k f)`, `k ≥ 1`).  -> ({set: {gid: {"boxed": [(rule,
+    "true"|"false")], "edges": {rule: [rules]}}}}, problems)"""
+    from . import tgen
+    tgen.ensure_tool()
+    jobs = [(g, s.attrs) for s in dsets for g in ok]
+    res = tgen.run_tool(jobs, tool=tool or tgen.TOOL)
+    facts = {s.name: {} for s in dsets}
+    problems = []
+    k = 0
+    for s in dsets:
+        for g in ok:
+            st, text = res[k]
+            k += 1
+            if st != "OK":
+                problems.append({"set": s.name, "gid": g["gid"], "status": st, "message": text[:200]})
+                continue
+            try:
+                sx = corpus.parse_sexp(text)
+                rules = [r for r in sx[2:] if isinstance(r, list) and r[0] == "rule"]
+                names = [r[1] for r in rules]
+                edges = {}
+                for r in rules:
+                    acc = set()
+
+                    def walk(e):
+                        if isinstance(e, list):
+                            if e and e[0] == "ref" and int(e[1]) >= 1:
+                                acc.add(names[int(e[1]) - 1])
+                            for c in e[1:]:
+                                walk(c)
+                    walk(r[5])
+                    edges[r[1]] = sorted(acc)
+                facts[s.name][g["gid"]] = {"boxed": [(r[1], r[4]) for r in rules], "edges": edges}
+            except Exception as e:     # the extractor's output is not what this reader expects: loud, not vacuous
+                problems.append({"set": s.name, "gid": g["gid"], "status": "unreadable", "message": str(e)[:200] + " in " + text[:120]})
+    return facts, problems
 
 
 def _short_dbg(line):
@@ -90,6 +168,100 @@ def _driver_lines(sexp_path, lines, nproc=8):
             for j, l in enumerate(res):
                 out[k + j * nproc] = l
     return [o if o is not None else "v=missing" for o in out]
+
+
+def extras_suite(tier, seed, d):
+    """Everything behind `#[cfg(feature = "grammar-extras")]`: node tags (`#tag = e`), `emit_tagged_node_reference`,
+    `truncate_getter_at_node_tag`, and pest_meta's feature-only `OptimizedExpr::{NodeTag, RepOnce}` arms of the generator.
+    Model-free (node tags are not part of the Lean `PExpr`): a tag must change nothing but the accessor API.
+     E1  rule types (syn-parsed, harness/tgen_tool_extras) of a tagged grammar with the tag options on = with them off;
+     E2  for `e+`-only rules the optimized path (feature-only `RepOnce` arm) emits the type of the raw path;
+     E3  token streams of the tagged grammars are identical across NPROC_DET processes (the `tagged_nodes` maps are populated);
+     E4  tagged and untagged twins, compiled with the feature, answer every case alike (verdict, offsets, stack, tracker,
+         tokens) under every option set, and the tagged grammar answers alike (also `{:?}`) under all sets that keep the AST."""
+    from . import tgen
+    opts.build_extras()
+    pairs = opts.tagged_grammars()
+    rep = opts.reponce_grammars()
+    ok, bad = corpus.validate([g for pr in pairs for g in pr] + rep, need_pest=False)
+    by = {g["gid"]: g for g in ok}
+    pairs = [(by[t["gid"]], by[p["gid"]]) for t, p in pairs if t["gid"] in by and p["gid"] in by]
+    out = {"pairs": len(pairs), "rejected": [g["gid"] for g in bad], "option_sets": [s.describe() for s in opts.EXTRAS_SETS]}
+    # E1: the tag options on / off, same grammar (a tag itself may change the NESTING of the emitted type: pest_meta's `rotate`
+    # does not look through a `NodeTag`, so `a ~ #t = (b ~ c)` keeps the inner sequence; twins are compared by behaviour, E4)
+    bases = [opts.OptSet(s.name + "_base", box_only_if_needed=s.box, emit_rule_reference=s.ref, do_not_emit_span=s.nospan,
+                         no_warnings=s.nowarn, pest_optimizer=s.opt) for s in opts.EXTRAS_SETS]
+    jobs = [(g, a) for s, b in zip(opts.EXTRAS_SETS, bases) for pr in pairs for g in pr for a in (s.attrs, b.attrs)]
+    res = tgen.run_tool(jobs, tool=opts.EXTRAS_TGEN)
+    k = 0
+    types_differ, e1 = [], 0
+    for s, b in zip(opts.EXTRAS_SETS, bases):
+        for pr in pairs:
+            for g in pr:
+                (st1, x1), (st2, x2) = res[k], res[k + 1]
+                k += 2
+                if s.attrs == b.attrs:
+                    continue
+                e1 += 1
+                if st1 != "OK" or st2 != "OK" or x1 != x2 or "(problem" in x1 or "(unsupported" in x1:
+                    types_differ.append({"grammar": g["text"], "option_set": s.attrs, "reference_set": b.attrs or "(default)",
+                                         "with": (st1 + " " + x1)[:600], "without": (st2 + " " + x2)[:600]})
+    out["E1_compared"], out["types_differ"] = e1, types_differ
+    # E2
+    rep_ok = [by[g["gid"]] for g in rep if g["gid"] in by]
+    r2 = tgen.run_tool([(g, a) for g in rep_ok for a in ("", "#[pest_optimizer = false]")], tool=opts.EXTRAS_TGEN)
+    out["reponce_differ"] = [{"grammar": g["text"], "optimized": r2[2 * i][1][:600], "raw": r2[2 * i + 1][1][:600]}
+                             for i, g in enumerate(rep_ok) if r2[2 * i] != r2[2 * i + 1] or r2[2 * i][0] != "OK"]
+    out["E2_compared"] = len(rep_ok)
+    # E3
+    tagged = [t for t, _ in pairs]
+    nondet, tagmods = [], 0
+    for s in opts.EXTRAS_SETS:
+        runs = [opts.token_streams(tagged, s, runner=opts.EXTRAS_RUNNER) for _ in range(NPROC_DET)]
+        if len({hashlib.sha256(r[1]).hexdigest() for r in runs}) != 1:
+            nondet.append({"option_set": s.attrs, "grammars": [g["gid"] for g in tagged if len({r[0].get(g["gid"]) for r in runs}) > 1]})
+        if "emit_tagged_node_reference" in s.attrs:
+            tagmods += sum(1 for g in tagged if "pub mod tags" in runs[0][0].get(g["gid"], ("", ""))[1])
+    out["nondeterministic"], out["tag_modules_emitted"] = nondet, tagmods
+    # E4
+    ws = os.path.join(BUILD, f"ws_opts_extras_{tier}")
+    lay = opts.emit_extras(pairs, opts.EXTRAS_SETS, ws, tag=tier[0])
+    rc, err = opts.build_all(ws)
+    out["build_rc"] = rc
+    if rc != 0:
+        out["build_err"] = err[err.find("error"):][:3000] if "error" in err else err[-3000:]
+        blamed = opts.blame(ws, err)
+        out["not_compiling"] = [{"set": sn, "gid": gid, "grammar": by[gid]["text"] if gid in by else "", "rustc": tx,
+                                 "attrs": next(x.attrs for x in opts.EXTRAS_SETS if x.name == sn)} for (sn, gid), tx in blamed.items()]
+        return out
+    rnd = random.Random(seed)
+    run_differ, e4 = [], 0
+    for t, p in pairs:
+        base = _cases_for(p, rnd, 3 if tier == "quick" else 4, 6)
+        ref = None
+        for s in opts.EXTRAS_SETS:
+            prefix, where = lay[s.name]
+            ot = suites.run_bins(prefix, where, [(t["gid"],) + c[1:] for c in base])
+            op = suites.run_bins(prefix, where, [(p["gid"],) + c[1:] for c in base])
+            for c, a, b in zip(base, ot, op):
+                e4 += 1
+                ia, ib = suites.parse_obs(a), suites.parse_obs(b)
+                badk = [x for x in TIE_KEYS if ia.get(x) != ib.get(x)]
+                if badk and len(run_differ) < 20:
+                    run_differ.append({"case": list((t["gid"],) + c[1:]), "grammar": t["text"], "option_set": s.attrs or "(default)", "keys": badk,
+                                       "tagged": _obs(ia, TIE_KEYS), "untagged": _obs(ib, TIE_KEYS)})
+            if s.opt:
+                if ref is None:
+                    ref = (s, ot)
+                else:
+                    for c, a, b in zip(base, ref[1], ot):
+                        ia, ib = suites.parse_obs(a), suites.parse_obs(b)
+                        badk = [x for x in SAME_AST_KEYS if ia.get(x) != ib.get(x)]
+                        if badk and len(run_differ) < 20:
+                            run_differ.append({"case": list((t["gid"],) + c[1:]), "grammar": t["text"], "option_set": s.attrs, "keys": badk,
+                                               "reference_set": ref[0].attrs or "(default)", "reference": _obs(ia, TIE_KEYS), "other": _obs(ib, TIE_KEYS)})
+    out["E4_compared"], out["run_differ"] = e4, run_differ
+    return out
 
 
 def suite_opts(tier, seed):
@@ -127,8 +299,46 @@ def suite_opts(tier, seed):
         streams[s.name] = {gid: v[1] for gid, v in first.items() if v[0] == "OK"}
     timing["determinism_s"] = round(time.time() - t1, 1)
 
+    # --- the grammar source through a file (`#[grammar = "x.pest"]`: collect_data / include_str!) ----------------
+    t1 = time.time()
+    fdir = os.path.join(BUILD, "c20", f"grammar_files_{tier}")
+    file_mode = []
+    for s in (opts.DEFAULT, opts.ALL_ON, opts.RAW_BOX):
+        runs = [opts.token_streams(ok, s, file_dir=fdir) for _ in range(NPROC_DET)]
+        same = len({hashlib.sha256(r[1]).hexdigest() for r in runs}) == 1
+        first = runs[0][0]
+        inline = streams.get(s.name) or {gid: v[1] for gid, v in opts.token_streams(ok, s)[0].items() if v[0] == "OK"}
+        differ = [g["gid"] for g in ok if first.get(g["gid"], ("", ""))[0] != "OK"
+                  or opts.after_first_item(first[g["gid"]][1]) != opts.after_first_item(inline.get(g["gid"], ""))]
+        uses_file = sum(1 for g in ok if "include_str !" in first.get(g["gid"], ("", ""))[1][:600])
+        file_mode.append({"attrs": s.attrs, "deterministic": same, "differ_from_inline": differ, "grammars": len(ok), "include_str": uses_file})
+    timing["file_mode_s"] = round(time.time() - t1, 1)
+
     # --- token-stream level facts -----------------------------------------------------------------
-    boxed_impl = {s.name: {gid: opts.boxed_flags(st) for gid, st in streams[s.name].items()} for s in sets}
+    t1 = time.time()
+    syn, syn_problems = _syn_facts(ok, dsets)
+    boxed_impl = {s.name: {gid: f["boxed"] for gid, f in syn[s.name].items()} for s in sets}
+    # the two regex readers of the token text are kept as a redundant second reading: where they disagree with the `syn`
+    # reading the harness is broken (reported as a broken tie), they decide nothing themselves
+    extractor_diffs = []
+    ast_refs = {g["gid"]: (_ast_refs(corpus.parse_sexp(g["sexp"]), 3), _ast_refs(corpus.parse_sexp(g["sexp"]), 4)) for g in ok}
+    edge_checked = edge_total = 0
+    for s in dsets:
+        for gid, st in streams[s.name].items():
+            f = syn[s.name].get(gid)
+            if f is None:
+                continue
+            if opts.boxed_flags(st) != [tuple(x) for x in f["boxed"]]:
+                extractor_diffs.append({"what": "$boxed: regex vs syn", "set": s.name, "gid": gid})
+            known = set(f["edges"])
+            if {r: [q for q in qs if q in known] for r, qs in opts.ref_edges(st).items()} != f["edges"]:     # (`rules::EOI` is rule 0, no grammar rule)
+                extractor_diffs.append({"what": "references: regex vs syn", "set": s.name, "gid": gid})
+            want = ast_refs[gid][0 if s.opt else 1]
+            edge_checked += 1
+            edge_total += sum(len(v) for v in f["edges"].values())
+            if f["edges"] != want:
+                extractor_diffs.append({"what": "references read off the emitted types vs the rule references of the AST that was walked",
+                                        "set": s.name, "gid": gid, "emitted": f["edges"], "ast": want})
     structure = []   # every set against the set with the same emit_rule_reference / pest_optimizer and nothing else
     refcache = {}
     for s in dsets:
@@ -138,22 +348,29 @@ def suite_opts(tier, seed):
         if r.attrs not in refcache:
             refcache[r.attrs] = {gid: v[1] for gid, v in opts.token_streams(ok, r)[0].items() if v[0] == "OK"}
         rs = refcache[r.attrs]
-        bad_g = [gid for gid in streams[s.name] if gid not in rs or opts.strip_boxing(streams[s.name][gid]) != opts.strip_boxing(rs[gid])]
+        bad_g = []
+        for gid in streams[s.name]:
+            dd = [{"at": 0, "left": "(no stream)", "right": ""}] if gid not in rs else opts.storage_diff(streams[s.name][gid], rs[gid])
+            if dd:
+                bad_g.append({"gid": gid, "first": dd[0]})
         same = sum(1 for gid in streams[s.name] if streams[s.name].get(gid) == rs.get(gid))
         structure.append({"set": s.name, "attrs": s.attrs, "ref_attrs": r.attrs or "(default)", "grammars": len(streams[s.name]),
                           "differ_beyond_boxing": bad_g, "identical": same})
+    # accessor functions: which option sets emit which accessors
+    acc_impl = {s.name: {gid: opts.accessor_names(st) for gid, st in streams[s.name].items()} for s in dsets}
 
     # --- boxing soundness on the emitted code (no rustc, no model): every reference cycle keeps a boxed rule ----
     box_cycles = []
     box_checked = 0
     for s in dsets:
-        for gid, st in streams[s.name].items():
-            edges = opts.ref_edges(st)
-            flags = dict(opts.boxed_flags(st))
+        for gid, f in syn[s.name].items():
+            edges = f["edges"]
+            flags = dict(f["boxed"])
             box_checked += 1
             cyc = opts.unboxed_cycle(edges, flags)
             if cyc:
                 box_cycles.append({"set": s.name, "attrs": s.attrs, "gid": gid, "cycle": cyc, "boxed": flags, "edges": edges})
+    timing["stream_facts_s"] = round(time.time() - t1, 1)
 
     # --- compile the corpus under every option set; isolate what rustc rejects and go on --------------
     t1 = time.time()
@@ -205,11 +422,12 @@ def suite_opts(tier, seed):
     for g in ok:
         big = len(g["rules"]) > 40
         if g["gid"].startswith("y_"):
-            cases += _cases_for(g, rnd, 2, 4, _cycle_walks(g))     # the cycle-shape family: many small grammars
+            cases += _cases_for(g, rnd, 2, 4, _cycle_walks(g), form_maxlen=1)     # the cycle-shape family: many small grammars
         elif tier == "quick":
             cases += _cases_for(g, rnd, 4, 10)
         else:
             cases += _cases_for(g, rnd, 3 if big else 4, 4 if big else 24)
+    os.makedirs(d, exist_ok=True)          # (another check's cache collection may have removed the still empty directory)
     json.dump(cases, open(os.path.join(d, "cases.json"), "w"), ensure_ascii=False)
     for s in sets:
         prefix, where = layout[s.name]
@@ -222,6 +440,7 @@ def suite_opts(tier, seed):
             impl = [next(it) if c[0] not in ex else "v=nobuild" for c in cases]
         else:
             impl = suites.run_bins(prefix, where, cases)
+        os.makedirs(d, exist_ok=True)
         open(os.path.join(d, f"impl_{s.name}.txt"), "w").write("\n".join(_short_dbg(l) for l in impl) + "\n")
     timing["run_impl_s"] = round(time.time() - t1, 1)
 
@@ -231,12 +450,27 @@ def suite_opts(tier, seed):
     open(sexp, "w").write("\n".join(g["sexp"] for g in ok) + "\n")
     for bits in sorted({s.bits for s in sets}):
         model = _driver_lines(sexp, [f"opts {bits} " + suites.case_line(c) for c in cases])
+        os.makedirs(d, exist_ok=True)
         open(os.path.join(d, f"model_{bits}.txt"), "w").write("\n".join(model) + "\n")
     boxed_model = {}
     for bits in sorted({s.bits for s in sets}):
         lines = _driver_lines(sexp, [f"opts {bits} {g['gid']} boxed" for g in ok], nproc=1)
         boxed_model[bits] = {g["gid"]: l for g, l in zip(ok, lines)}
+    acc_model = {}
+    for s in dsets:
+        b3 = s.bits + ("1" if s.ref else "0")
+        if b3 not in acc_model:
+            lines = _driver_lines(sexp, [f"opts {b3} {g['gid']} accessors" for g in ok], nproc=1)
+            acc_model[b3] = {g["gid"]: l for g, l in zip(ok, lines)}
     timing["run_model_s"] = round(time.time() - t1, 1)
+
+    # --- cargo feature `grammar-extras`: node tags ----------------------------------------------------------------
+    t1 = time.time()
+    try:
+        extras = extras_suite(tier, seed, d)
+    except Exception as e:
+        extras = {"error": str(e)[-2000:]}
+    timing["extras_s"] = round(time.time() - t1, 1)
 
     meta = {"suite": "opts", "tier": tier, "seed": seed, "wall_s": round(time.time() - t0, 1), "timing": timing,
             "sets": [{"name": s.name, "attrs": s.attrs, "bits": s.bits, "opt": s.opt, "box": s.box, "ref": s.ref,
@@ -246,7 +480,12 @@ def suite_opts(tier, seed):
             "determinism": det, "structure": structure, "boxed_impl": boxed_impl, "boxed_model": boxed_model,
             "build_rc": rc, "build_err": (err[err.find("error"):][:3000] if rc != 0 and "error" in err else err[-3000:] if rc != 0 else ""),
             "not_compiling": not_compiling, "excluded": {k: sorted(v) for k, v in exclude.items()},
-            "box_cycles": box_cycles, "box_cycle_checked": box_checked, "sexp": sexp}
+            "box_cycles": box_cycles, "box_cycle_checked": box_checked, "sexp": sexp,
+            "dsets": [{"name": s.name, "attrs": s.attrs, "bits3": s.bits + ("1" if s.ref else "0"), "ref": s.ref} for s in dsets],
+            "syn_problems": syn_problems[:20], "extractor_diffs": extractor_diffs[:20], "n_extractor_diffs": len(extractor_diffs),
+            "edge_checked": edge_checked, "edge_total": edge_total, "acc_impl": acc_impl, "acc_model": acc_model,
+            "file_mode": file_mode, "extras": extras}
+    os.makedirs(d, exist_ok=True)
     json.dump(meta, open(os.path.join(d, "meta.json"), "w"), ensure_ascii=False)
     suites._gc_cache(12)
     return d
@@ -463,8 +702,8 @@ def check_C20(ctx):
     sets = meta["sets"]
     by_name = {s["name"]: s for s in sets}
     ctx.assumptions += [
-        "default cargo features only: emit_tagged_node_reference / truncate_getter_at_node_tag are read only under `grammar-extras` (node tags), which is outside the modelled surface; they are exercised in the determinism runs only",
-        "do_not_emit_span and simulate_pair_api are parsed into Config and never read (generator/src: no use besides typed.rs:111,121); no_warnings only guards an eprintln! in parse_typed_derive",
+        "node tags (`grammar-extras`: emit_tagged_node_reference / truncate_getter_at_node_tag, OptimizedExpr::NodeTag / RepOnce arms) are outside the Lean model; they are observed model-free with the feature built in (harness/opts_runner_extras, tgen_tool_extras, a runner workspace): option on/off leaves the syn-parsed rule types equal, tagged and untagged twins parse alike, streams are deterministic",
+        "do_not_emit_span and simulate_pair_api are parsed into Config and never read (generator/src: no use besides typed.rs:111,121); no_warnings only guards an eprintln! in parse_typed_derive; the model (`emitWith`) has all options and reads the same three the code reads — T-gen:structure (10 option sets) and T-gen:accessors compare the real output under every option with it",
         "pest_meta's optimizer is external: both ASTs are inputs of the model; raw-vs-optimized differences caused by its `unroll` (with skip rules) and `list` passes are known findings F-OPT-3 / F-OPT-1",
         "`compiles` is validated on the corpus (rustc), not proved; the Lean theorem C20_cycles_boxed proves that every reference cycle keeps a boxed rule",
     ]
@@ -481,9 +720,74 @@ def check_C20(ctx):
             ctx.tie_broken("opts_runner", {"set": name, "panics": r["panics"], "missing": r["missing"]})
     # ---------------- structure on the token stream ----------------
     for st in meta["structure"]:
-        for gid in st["differ_beyond_boxing"]:
-            ctx.violation("token stream differs beyond the storage decision", (gid, "*", "derive", "tokens", 0, 0, ""),
-                          option_set=st["attrs"], reference=st["ref_attrs"])
+        for e in st["differ_beyond_boxing"]:
+            ctx.violation("token stream differs beyond the storage decision", (e["gid"], "*", "derive", "tokens", 0, 0, ""),
+                          option_set=st["attrs"], reference=st["ref_attrs"], first_difference=e["first"])
+    for fm in meta["file_mode"]:
+        if not fm["deterministic"]:
+            ctx.violation("nondeterministic token stream across processes", ("*", "*", "derive", "tokens", 0, 0, ""),
+                          option_set=fm["attrs"], source="#[grammar = \"file\"]")
+        for gid in fm["differ_from_inline"][:10]:
+            ctx.violation("token stream depends on how the grammar source is given (file vs inline)", (gid, "*", "derive", "tokens", 0, 0, ""),
+                          option_set=fm["attrs"] or "(default)", grammar=meta["grammars"][gid]["text"])
+        if fm["include_str"] != fm["grammars"]:
+            ctx.tie_broken("opts_runner", {"error": "file mode did not go through include_str!", **{k: fm[k] for k in ("attrs", "include_str", "grammars")}})
+    # ---------------- the readers of the emitted code agree with each other and are not vacuous ----------------
+    ctx.ties["T-gen:extractors"] = {"cases": meta["edge_checked"], "agree": meta["edge_checked"] - meta["n_extractor_diffs"],
+                                    "observables": ["$boxed and rule references of every emitted rule type: syn reading = regex reading; references = the AST's rule references"],
+                                    "references_read": meta["edge_total"]}
+    if meta["n_extractor_diffs"] or meta["syn_problems"]:
+        ctx.tie_broken("T-gen:extractors", {"disagreements": meta["n_extractor_diffs"], "first": meta["extractor_diffs"][:5], "unreadable": meta["syn_problems"][:5]})
+    if meta["edge_total"] == 0:
+        ctx.tie_broken("T-gen:extractors", {"error": "no rule reference was read off any emitted module: the boxing oracle would be vacuous"})
+    # ---------------- T-gen: accessor functions per option set (Model.GenOpts.emitWith) ----------------
+    atot = aagree = 0
+    adiffs = []
+    with_acc = 0
+    for ds in meta["dsets"]:
+        for gid, impl_acc in meta["acc_impl"][ds["name"]].items():
+            line = meta["acc_model"][ds["bits3"]].get(gid, "")
+            model_acc = {}
+            if line.startswith("acc="):
+                for part in line[4:].split(";"):
+                    if ":" in part:
+                        nm, _, lst = part.partition(":")
+                        model_acc[nm] = [x for x in lst.split(",") if x]
+            atot += 1
+            with_acc += any(impl_acc.values())
+            if impl_acc == model_acc:
+                aagree += 1
+            elif len(adiffs) < 5:
+                adiffs.append({"set": ds["name"], "attrs": ds["attrs"], "grammar": gid, "impl": impl_acc, "model": model_acc})
+    ctx.ties["T-gen:accessors"] = {"cases": atot, "agree": aagree, "observables": ["names of the accessor functions in every rule's impl block"],
+                                   "modules_with_accessors": with_acc}
+    if atot != aagree:
+        ctx.tie_broken("T-gen:accessors", {"disagreements": atot - aagree, "first": adiffs})
+    if with_acc == 0:
+        ctx.tie_broken("T-gen:accessors", {"error": "no accessor function was read off any emitted module"})
+    # ---------------- cargo feature grammar-extras ----------------
+    ex = meta["extras"]
+    if "error" in ex:
+        ctx.tie_broken("extras", {"error": ex["error"]})
+    else:
+        for td in ex.get("types_differ", []):
+            ctx.violation("emit_tagged_node_reference / truncate_getter_at_node_tag change the emitted rule types", ("x_tags", "*", "derive", "tokens", 0, 0, ""), **td)
+        for td in ex.get("reponce_differ", []):
+            ctx.violation("grammar-extras: `e+` on the optimized path is not the type of the raw path", ("x_reponce", "*", "derive", "tokens", 0, 0, ""), **td)
+        for nd in ex.get("nondeterministic", []):
+            ctx.violation("nondeterministic token stream across processes", (",".join(nd["grammars"][:5]), "*", "derive", "tokens", 0, 0, ""),
+                          option_set=nd["option_set"], feature="grammar-extras")
+        for nc in ex.get("not_compiling", []):
+            ctx.violation(P_NOCOMPILE, (nc["gid"], "*", "rustc", "build", 0, 0, ""), grammar=nc["grammar"], option_set=nc["attrs"],
+                          feature="grammar-extras", rustc=nc["rustc"])
+        if ex.get("build_rc", 0) != 0 and not ex.get("not_compiling"):
+            ctx.tie_broken("extras", {"error": "the grammar-extras workspace does not build", "cargo": ex.get("build_err", "")})
+        for rd in ex.get("run_differ", []):
+            c = tuple(rd["case"])
+            ctx.violation("a node tag / tag option changes a parse result (grammar-extras)", c, **{k: v for k, v in rd.items() if k != "case"})
+        if ex.get("tag_modules_emitted", 0) == 0:
+            ctx.tie_broken("extras", {"error": "no `pub mod tags` in any stream: the feature does not seem to be on"})
+        ctx.coverage["grammar_extras"] = {k: ex.get(k) for k in ("pairs", "E1_compared", "E2_compared", "E4_compared", "tag_modules_emitted", "build_rc")}
     # ---------------- T-gen: boxed decisions ----------------
     tot = agree = 0
     bdiffs = []
